@@ -486,3 +486,77 @@ package keeper
 //@ func (Keeper).Params
 //@ props C17
 //@ ensures [C17] the_parameters_in_force: err == NoErr && result0.Params == params
+
+// ---------------------------------------------------------------- legacy querier (C17): same views as the gRPC methods, JSON-encoded.
+// D(x) below is the decoded parameter struct jsonDec_<T>(req.Data); the answer is jsonEnc_<T>(view).
+//@ func queryServiceDefinition
+//@ props C17
+//@ ensures [C17] same_view_as_grpc: err == NoErr ==> (let ps := jsonDec_QueryDefinitionParams(fld_Opaque_RequestQuery_Data(req)) in
+//@      defFound(raw, ps.ServiceName) && result0 == jsonEnc_ServiceDefinition(dec_ServiceDefinition(raw[KDef(ps.ServiceName)])))
+
+//@ func queryBinding
+//@ props C17
+//@ ensures [C17] same_view_as_grpc: err == NoErr ==> (let ps := jsonDec_QueryBindingParams(fld_Opaque_RequestQuery_Data(req)) in
+//@      bindFound(raw, ps.ServiceName, ps.Provider) && result0 == jsonEnc_ServiceBinding(bindOf(raw, ps.ServiceName, ps.Provider)))
+
+//@ func queryBindings
+//@ props C17 C15
+//@ requires owner_address: (let ps := jsonDec_QueryBindingsParams(fld_Opaque_RequestQuery_Data(req)) in len(ps.Owner) == 0 || len(ps.Owner) == 20)
+//@ loop 0 invariant pos_in_range: 0 <= iterator_pos && iterator_pos <= itCount(iterator_snap, iterator_pfx)
+//@ loop 0 invariant snapshot: iterator_snap == raw && iterator_pfx == PBindSvc(params.ServiceName)
+//@ loop 0 invariant listed_so_far: bindings == bindsIt(iterator_snap, iterator_pfx, iterator_pos)
+//@ ensures [C17,C15] same_view_as_grpc: err == NoErr ==> (let ps := jsonDec_QueryBindingsParams(fld_Opaque_RequestQuery_Data(req)) in
+//@      result0 == jsonEnc__Slice_ServiceBinding_(len(ps.Owner) == 0 ? bindsIt(raw, PBindSvc(ps.ServiceName), itCount(raw, PBindSvc(ps.ServiceName)))
+//@           : ownerBindsIt(raw, POwnerBind(ps.Owner, ps.ServiceName), itCount(raw, POwnerBind(ps.Owner, ps.ServiceName)))))
+
+//@ func queryWithdrawAddress
+//@ props C17
+//@ ensures [C17] same_view_as_grpc: err == NoErr ==> result0 == jsonEnc_Bytes(withdrawAddrOf(raw, jsonDec_QueryWithdrawAddressParams(fld_Opaque_RequestQuery_Data(req)).Owner))
+
+//@ func queryRequest
+//@ props C17
+//@ ensures [C17] same_view_as_grpc: err == NoErr ==> (let ps := jsonDec_QueryRequestParams(fld_Opaque_RequestQuery_Data(req)) in
+//@      len(ps.RequestID) == 58 && result0 == jsonEnc_Request(requestOrZero(raw, ps.RequestID)))
+
+//@ func queryRequests
+//@ props C17
+//@ loop 0 invariant pos_in_range: 0 <= iterator_pos && iterator_pos <= itCount(iterator_snap, iterator_pfx)
+//@ loop 0 invariant snapshot: iterator_snap == raw && iterator_pfx == PActBind(params.ServiceName, params.Provider)
+//@ loop 0 invariant listed_so_far: requests == reqsByMarkerIt(iterator_snap, iterator_pfx, iterator_pos)
+//@ ensures [C17] same_view_as_grpc: err == NoErr ==> (let ps := jsonDec_QueryRequestsParams(fld_Opaque_RequestQuery_Data(req)) in
+//@      result0 == jsonEnc__Slice_Request_(reqsByMarkerIt(raw, PActBind(ps.ServiceName, ps.Provider), itCount(raw, PActBind(ps.ServiceName, ps.Provider)))))
+
+//@ func queryResponse
+//@ props C17
+//@ ensures [C17] same_view_as_grpc: err == NoErr ==> (let ps := jsonDec_QueryResponseParams(fld_Opaque_RequestQuery_Data(req)) in
+//@      len(ps.RequestID) == 58 && result0 == jsonEnc_Response(raw[KResp(ps.RequestID)] == bnil ? zero_Response : dec_Response(raw[KResp(ps.RequestID)])))
+
+//@ func queryRequestContext
+//@ props C17
+//@ ensures [C17] same_view_as_grpc: err == NoErr ==> result0 == jsonEnc_RequestContext(ctxOrZero(raw, jsonDec_QueryRequestContextParams(fld_Opaque_RequestQuery_Data(req)).RequestContextID))
+
+//@ func queryRequestsByReqCtx
+//@ props C17
+//@ loop 0 invariant pos_in_range: 0 <= iterator_pos && iterator_pos <= itCount(iterator_snap, iterator_pfx)
+//@ loop 0 invariant snapshot: iterator_snap == raw && iterator_pfx == PReqByCtx(params.RequestContextID, params.BatchCounter)
+//@ loop 0 invariant listed_so_far: requests == reqsByKeyIt(iterator_snap, iterator_pfx, iterator_pos)
+//@ ensures [C17] same_view_as_grpc: err == NoErr ==> (let ps := jsonDec_QueryRequestsByReqCtxParams(fld_Opaque_RequestQuery_Data(req)) in
+//@      result0 == jsonEnc__Slice_Request_(reqsByKeyIt(raw, PReqByCtx(ps.RequestContextID, ps.BatchCounter), itCount(raw, PReqByCtx(ps.RequestContextID, ps.BatchCounter)))))
+
+//@ func queryResponses
+//@ props C17
+//@ loop 0 invariant pos_in_range: 0 <= iterator_pos && iterator_pos <= itCount(iterator_snap, iterator_pfx)
+//@ loop 0 invariant snapshot: iterator_snap == raw && iterator_pfx == PRespByCtx(params.RequestContextID, params.BatchCounter)
+//@ loop 0 invariant listed_so_far: responses == respsIt(iterator_snap, iterator_pfx, iterator_pos)
+//@ ensures [C17] same_view_as_grpc: err == NoErr ==> (let ps := jsonDec_QueryResponsesParams(fld_Opaque_RequestQuery_Data(req)) in
+//@      result0 == jsonEnc__Slice_Response_(respsIt(raw, PRespByCtx(ps.RequestContextID, ps.BatchCounter), itCount(raw, PRespByCtx(ps.RequestContextID, ps.BatchCounter)))))
+
+//@ func queryEarnedFees
+//@ props C17
+//@ witness fees_ (Slice Coin) := fees
+//@ ensures [C17] same_view_as_grpc: err == NoErr ==> result0 == jsonEnc__Slice_Coin_(fees_) &&
+//@      (forall d Str :: amt(fees_, d) == pfxSum(raw, PEarned(jsonDec_QueryEarnedFeesParams(fld_Opaque_RequestQuery_Data(req)).Provider), d))
+
+//@ func queryParams
+//@ props C17
+//@ ensures [C17] same_view_as_grpc: err == NoErr ==> result0 == jsonEnc_Params(params)
